@@ -595,16 +595,17 @@ def inline_top(prog, e, crate="svgbob", rounds=3, keep=None):
     return e
 
 
-def bool_function(prog, path, atom, depth=3, max_paths=64):
+def bool_function(prog, path, atom, depth=3, max_paths=64, keep=None):
     """the boolean function a loop-free body computes over the atomic tests `atom` recognises (atom(expr) -> name | None),
     decided path by path with crate-local helpers inlined: returns (atoms, {assignment tuple: bool}) or (None, reason).
-    `a && b`, `if !a { return false } b`, `match (a, b) {..}` and a helper in between all give the same table."""
+    `a && b`, `if !a { return false } b`, `match (a, b) {..}` and a helper in between all give the same table.
+    atom may return ("not", name) for the complement of a named test."""
     import itertools
     from .mirlib import paths
     ps = paths(prog, path, max_paths=max_paths)
     if not ps:
         return None, "the body is not loop free (or has too many paths)"
-    norm = lambda e: strip(simplify(inline_calls(prog, e, depth=depth)))
+    norm = lambda e: strip(simplify(inline_calls(prog, e, depth=depth, keep=keep)))
     rows = []
     names = set()
     for conds, ret in ps:
@@ -617,6 +618,8 @@ def bool_function(prog, path, atom, depth=3, max_paths=64):
             a = atom(c)
             if a is None:
                 return None, "a branch on `%s` is not one of the expected tests" % _short(c)
+            if isinstance(a, tuple) and a[0] == "not":
+                a, neg = a[1], not neg
             names.add(a)
             cs.append((a, tk, neg))
         r = norm(ret)
@@ -629,6 +632,8 @@ def bool_function(prog, path, atom, depth=3, max_paths=64):
             a = atom(r)
             if a is None:
                 return None, "the result `%s` is not one of the expected tests" % _short(r)
+            if isinstance(a, tuple) and a[0] == "not":
+                a, neg = a[1], not neg
             names.add(a)
             rv = ("atom", a, neg)
         rows.append((cs, rv))
